@@ -80,6 +80,7 @@ pub fn case(data: &[u8]) -> Result<Case> {
         consume: (0..nc).map(|_| true).collect(),
         outlive: u.ratio(1u8, 3u8)?,
         panicky: 0,
+        ctype: Vec::new(),
     };
     let mode = if u.ratio(1u8, 4u8)? { Mode::SC } else { Mode::M2 };
     let freeze = if u.ratio(1u8, 8u8)? { Some(Freeze { at: u.int_in_range(0u32..=300)?, keep: u.int_in_range(0..=nt - 1)?, n_ops: 1 }) } else { None };
